@@ -66,6 +66,20 @@ CHECKS = {
          'owner-guarded or is the tagged admin deletion; wildcard deletion '
          '(--prune) is reported (known finding F-C08-1).',
          'Does not model remote branch protection.', 'C08'),
+ 'C09': ('exhaustive case tables of the version comparators by partial '
+         'evaluation + must-pass-through on the rejection guards + regex '
+         'language of release tags',
+         'PARTIAL: only the clauses visible in the shape of the code are '
+         'decided -- development/x sorts after every development/x.* and a '
+         'stabilization queue before its development queue (comparator '
+         'case tables), ill-formed cascades are rejected (duplicate kind, '
+         'stabilization without development branch, released '
+         'stabilization, micro mismatch), only the destination hotfix '
+         'branch enters a cascade, and which branch kind contributes the '
+         'expected fix version in each case.',
+         'The computed target list, ignored branches and version numbers on '
+         'concrete branch/tag sets are NOT decided (value of an algorithm; '
+         'needs exhaustive execution).', 'C09 / section 11.7'),
  'C10': ('who-may-call + registry + must-pass-through + noreturn '
          'propagation + mutable-global census',
          'Static: one de-duplicating comment channel; repetition allowed '
@@ -154,11 +168,6 @@ NOT_APPLICABLE = {
         'solver, which is another technique family. The structural '
         'necessary conditions (SUCCESSFUL-only, validated-before-processed, '
         'force-merge wiring) are claimed under C03.',
- 'C09': 'value of an algorithm over sets of branches and tags (cascade, '
-        'ignored branches, fix versions): comparator totality and version '
-        'arithmetic on runtime integers; no clause reduces to a path, '
-        'registry or language fact without freezing the implementation '
-        'text.',
 }
 
 
